@@ -184,4 +184,5 @@ VARIANTS = [
     {"name": "twin-union-of-both-sets", "rule": "R6.26", "file": PRINTER,
      "old": "    return name_in(self._class_members) or name_in(self._local_names)\n",
      "new": "    return name_in(self._class_members | self._local_names)\n", "expect": "silent"},
+    {"name": "twin-benign-C05-r2", "rule": "R6.26", "patch": "benign/C05-r2/patch.diff", "expect": "silent"},
 ]
